@@ -11,13 +11,13 @@ Proof. exact titer_flat. Qed.
 Print Assumptions C01_iter_flat.
 
 (* Table.Scan delivers the decoded rows of the tree, in tree order, each once *)
-Theorem C01_scan_rows : forall pg U npages S root (cb : Z -> record -> S -> flow * S) s,
-  table_scan pg U npages S root cb s = run_flat (fun x s => cb (fst x) (snd x) s) (table_rows pg U npages root) s.
+Theorem C01_scan_rows : forall pg op npages S root (cb : Z -> record -> S -> flow * S) s,
+  table_scan pg op npages S root cb s = run_flat (fun x s => cb (fst x) (snd x) s) (table_rows pg op npages root) s.
 Proof. exact table_scan_rows. Qed.
 Print Assumptions C01_scan_rows.
 
-Theorem C01_scan_all : forall pg U npages root l,
-  table_rows pg U npages root = (l, None) ->
-  table_scan pg U npages _ root (tcollect None) [] = (Continue, rev l).
+Theorem C01_scan_all : forall pg op npages root l,
+  table_rows pg op npages root = (l, None) ->
+  table_scan pg op npages _ root (tcollect None) [] = (Continue, rev l).
 Proof. exact table_scan_all. Qed.
 Print Assumptions C01_scan_all.
